@@ -125,9 +125,11 @@ def coverage(results, rule):
         for k, v in r.get("stats", {}).items():
             stats[k] += v
     digests = set(r["digest"] for r in results if r.get("nontrivial"))
-    samples = [r["sample"] for r in results if r.get("sample")][:2]
+    def short(cmds):
+        return [c if len(c) <= 220 else c[:200] + "...(%d chars)" % len(c) for c in cmds]
+    samples = [short(r["sample"]) for r in results if r.get("sample")][:2]
     if not samples:
-        samples = [r.get("script", [])[:12] for r in results[:1]]
+        samples = [short(r.get("script", [])[:12]) for r in results[:1]]
     return {
         "evaluations": len(results),
         "distinct_nontrivial": len(digests),
@@ -138,7 +140,63 @@ def coverage(results, rule):
     }
 
 
-def hist_runner(cfg_quick, cfg_thorough, n_quick, n_thorough, rule):
+def helper_sweep(kinds):
+    """pure helper functions: the real function and the model on the same generated inputs"""
+    def run(prop, tier, seed):
+        rng = random.Random(seed + 11)
+        n = 3000 if tier == "thorough" else 400
+        cmds = []
+        for _ in range(n):
+            k = rng.choice(kinds)
+            if k == "token":
+                i = rng.choice([0, 1, 2, 7, 10, 123, rng.randrange(10 ** 6)])
+                path = rng.choice([0, 1, 2, 3, 6, 9, 27, rng.randrange(4 ** 12), rng.randrange(4 ** 40), 64, 63, 4095, 4096])
+                cmds.append((61, [i, path]))
+                tok = rng.choice([b"", b"#", b"1#", b"#1", b"12#ab#c", b"1#a b", b"x#1", b"3#-_Zz09", b"007#0", b"5#~"])
+                cmds.append((62, [tok]))
+            elif k == "rule":
+                l = G.gen_lru(rng, weird=0.3)
+                if rng.random() < 0.3:
+                    l = l.replace(b"s:", rng.choice([b"S:", b"s:", b"xs:"]), 1).replace(b"h:", rng.choice([b"H:", b"h:"]), 1)
+                cmds.append((63, [rng.choice([0, 1, 2, 3, 4, 5]), l]))
+            elif k == "chunks":
+                ln = rng.choice(G.CRIT_LENGTHS + [1, 2, 74 * 3, 74 * 4, 74 * 5, 74 * 4 + 1, rng.randint(1, 600)])
+                cmds.append((64, [bytes(rng.randrange(256) for _ in range(ln)).replace(b"|", b"!") + b"|"]))
+            else:
+                l = G.gen_lru(rng, weird=0.3)
+                if rng.random() < 0.3:
+                    l = l + rng.choice([b"p:tail", b"", b"|", b"||"])
+                cmds.append((60, [l]))
+                cmds.append((65, [l]))
+        im = I.Impl("m")
+        viol = []
+        try:
+            got = [im.exec(op, args) for op, args in cmds]
+            # chain: tokens built by the implementation parse back (on both sides)
+            extra = [(62, [g]) for (op, args), g in zip(cmds, got) if op == 61 and isinstance(g, bytes)]
+            got += [im.exec(op, args) for op, args in extra]
+            cmds = cmds + extra
+            model = C.run_driver(cmds)
+            built = iter([args for op, args in cmds if op == 61])
+            for (op, args), g, m in zip(cmds, got, model):
+                if not C.eq(g, m[0]) and not viol:
+                    viol.append({"property": prop, "failing_input": False,
+                                 "broken": "correspondence: helper opcode %d differs between implementation and model" % op,
+                                 "input": I.fmt(args), "implementation": I.fmt(g), "model": I.fmt(m[0])})
+            # round trip on the implementation itself
+            n61 = [(args, g) for (op, args), g in zip(cmds, got) if op == 61]
+            back = got[len(got) - len(extra):]
+            for (args, tok), b in zip(n61, back):
+                if not C.eq(b, list(args)) and not any(v.get("failing_input") for v in viol):
+                    viol.insert(0, {"property": prop, "failing_input": True,
+                                    "what": "token %r built for (prefix index, path) = %r parses back as %r" % (tok, args, b)})
+        finally:
+            im.close()
+        return viol[:2], {"helper_cases": len(cmds)}
+    return run
+
+
+def hist_runner(cfg_quick, cfg_thorough, n_quick, n_thorough, rule, sweep=None):
     def run(prop, tier, seed, replay):
         if replay:
             j = json.load(open(replay))
@@ -151,7 +209,12 @@ def hist_runner(cfg_quick, cfg_thorough, n_quick, n_thorough, rule):
         jobs = [(seed * 100003 + i, cfg) for i in range(n)]
         results += pool_map(_worker, jobs)
         v, k = classify(prop, results, seed)
-        return {"violations": v, "known": k, "cov": coverage(results, rule)}
+        cov = coverage(results, rule)
+        if sweep is not None:
+            sv, scov = sweep(prop, tier, seed)
+            v = v + sv
+            cov.update(scov)
+        return {"violations": v, "known": k, "cov": cov}
     return run
 
 
@@ -170,29 +233,32 @@ RULE = ("random request histories from one PRNG (seed, index): %d write requests
 PROPS = {}
 
 
-def reg(pid, theorems, focus, nq=480, nt=6000, nw=25, depth=1, mixkw=None, extra=None, **more):
+def reg(pid, theorems, focus, nq=480, nt=30000, nw=25, depth=1, mixkw=None, extra=None, sweep=None, **more):
     cfgq = {"nw": nw, "focus": focus, "depth": depth, "mix": mix(**(mixkw or {})), "bytes": 43 in focus,
-            "observe_p": 0.25}
+            "observe_p": 0.25, "weird": more.pop("weird", 0.15)}
     if extra:
         cfgq["extra"] = extra
     cfgt = dict(cfgq, nw=nw + 15, depth=2)
-    PROPS[pid] = dict({"theorems": theorems, "runner": hist_runner(cfgq, cfgt, nq, nt, RULE % nw)}, **more)
+    PROPS[pid] = dict({"theorems": theorems, "runner": hist_runner(cfgq, cfgt, nq, nt, RULE % nw, sweep)}, **more)
 
 
-reg("C01", ["C01_pages", "C01_counts", "C01_reports"], K.FACET_OPS["C01"])
-reg("C02", ["C02_find", "C02_windup", "stem_roundtrip"], K.FACET_OPS["C02"])
+reg("C01", ["C01_pages_perm", "C01_count_pages", "C01_reports"], K.FACET_OPS["C01"], weird=0.3)
+reg("C02", ["C02_find_known", "C02_windup", "C02_stem_roundtrip"], K.FACET_OPS["C02"], sweep=helper_sweep(["chunks", "lru"]), weird=0.45)
 reg("C03", ["C03_out", "C03_in", "C03_count"], K.FACET_OPS["C03"], mixkw={"add_links": 30, "batch": 20})
 reg("C04", ["C04_resolve", "C04_prefmap"], K.FACET_OPS["C04"],
     mixkw={"create_we": 16, "delete_we": 10, "add_prefix": 12, "remove_prefix": 10, "move_prefix": 8})
 reg("C05", ["C05_under"], K.FACET_OPS["C05"], mixkw={"create_we": 16, "add_prefix": 10})
-reg("C06", ["C06_create"], K.FACET_OPS["C06"], mixkw={"add_rule": 14, "remove_rule": 4})
+reg("C06", ["C06_create", "C06_potential", "C06_rule_install"], K.FACET_OPS["C06"], mixkw={"add_rule": 14, "remove_rule": 4},
+    sweep=helper_sweep(["rule"]))
 reg("C07", ["C07_net"], K.FACET_OPS["C07"], depth=2, nq=320, mixkw={"add_links": 30, "batch": 20, "create_we": 14})
 reg("C08", ["C08_pagelinks"], K.FACET_OPS["C08"], mixkw={"add_links": 30, "batch": 20, "create_we": 14})
-reg("C09", ["token_roundtrip", "ino_sorted", "C09_chunks"], K.FACET_OPS["C09"], mixkw={"add_page": 50, "add_pages": 20, "create_we": 14})
+reg("C09", ["C09_token_roundtrip", "C09_sorted_pages", "C09_chunks", "C09_stable_chain"], K.FACET_OPS["C09"],
+    mixkw={"add_page": 50, "add_pages": 20, "create_we": 14}, sweep=helper_sweep(["token"]))
 reg("C10", ["C10_chunks"], K.FACET_OPS["C10"], mixkw={"add_links": 35, "batch": 20, "create_we": 14})
 reg("C12", ["C12_fresh"], set(), mixkw={"create_we": 16, "delete_we": 10, "add_rule": 10, "reopen": 10})
 reg("C13", ["C13_parents", "C13_children"], K.FACET_OPS["C13"], mixkw={"create_we": 18, "add_prefix": 12, "move_prefix": 8, "add_rule": 10})
-reg("C19", ["C19_trie_blocks", "C19_links"], K.FACET_OPS["C19"])
+reg("C19", ["C19_trie_blocks", "C19_count_links", "C19_readd_no_growth"], K.FACET_OPS["C19"], sweep=helper_sweep(["chunks"]), weird=0.45,
+    mixkw={"add_page": 45, "add_pages": 16})
 reg("C20", ["C20_topk"], K.FACET_OPS["C20"], mixkw={"add_links": 35, "batch": 20, "create_we": 14})
 
 
